@@ -133,9 +133,22 @@ def general_queries(t):
         "SelectMany(SelectMany(ds, lambda e: e.jets), lambda j: Select(Select(j.tracks, lambda t: (t, 1)), lambda p: p[0].pt))",
         "Select(SelectMany(SelectMany(ds, lambda e: e.jets), lambda j: Select(j.tracks, lambda t: (t, j))), lambda p: p[0].pt + p[1].pt)",
         "Select(SelectMany(Where(Select(ds, lambda e: (e.jets, e.met)), lambda t: t[1] > 0), lambda u: u[0]), lambda j: j.pt)",
+        # an argument substituted at several places (shared sub-tree), renamed binders
+        "Count(Where(Select(ds, lambda a: First(Where(SelectMany(ds, lambda b: b.jets), lambda c: 4 != c.eta))), "
+        "lambda d: d.pt > Count(Where(Select(ds, lambda e: d), lambda f: f.pt >= d.eta))))",
+        "Select(Select(ds, lambda a: First(Where(a.jets, lambda c: c.eta > 0))), lambda d: (d.pt, Count(Where(ds, lambda e: e.met > d.pt)), d.eta))",
+        # the argument of a called lambda mentions a variable named like the parameter
+        "Select(ds, lambda e: (lambda e: Count(Where(Select(ds, lambda c: e), lambda e: e.eta >= e.pt)))(First(e.jets)))",
+        "Select(ds, lambda e: (lambda e: e.pt + 1)(First(e.jets)))",
+        "Select(ds, lambda e: (lambda e, b: Count(Where(e.tracks, lambda e: e.pt > b)))(First(e.jets), e.met))",
+        "Select(ds, lambda x: (lambda x: Select(x.tracks, lambda t: t.pt + x.pt))(First(x.jets)))",
     ]
     out += [(s, "hand") for s in extra]
     out += packaging_chains()
+    # random deep queries: nested operators, closures, called lambdas, packaging + projection,
+    # First push-through, binder re-use (seeded)
+    out += [(q, "random") for q in gen.random_queries(rng, 150 if quick else 8000,
+                                                      3 if quick else 5)]
     seen = set()
     res = []
     for s, sch in out:
